@@ -208,7 +208,7 @@ func (f *flow) missing() string {
 
 // fingerprint folds the per-channel delivered sequences (what the property
 // observes) into the run fingerprint.
-func (f *flow) fingerprint(c *kernel.Ctx) (msgs int, multi bool) {
+func (f *flow) fingerprint(r *runState) (msgs int, multi bool) {
 	f.rcv.mu.Lock()
 	defer f.rcv.mu.Unlock()
 	chs := make([]int, 0)
@@ -225,7 +225,7 @@ func (f *flow) fingerprint(c *kernel.Ctx) (msgs int, multi bool) {
 			h.Write(m)
 			msgs++
 		}
-		c.Finger(f.name, chi, len(f.rcv.byCh[byte(chi)]), fmt.Sprintf("%x", h.Sum(nil)[:8]))
+		r.finger(f.name, chi, len(f.rcv.byCh[byte(chi)]), fmt.Sprintf("%x", h.Sum(nil)[:8]))
 	}
 	return
 }
@@ -670,7 +670,7 @@ func (r *runState) scenarioMConn() {
 		chs = append(chs, fmt.Sprintf("%#x prio %d/%d q %d/%d", cs.id, cs.prio[0], cs.prio[1], cs.qcap[0], cs.qcap[1]))
 	}
 	r.sample["channels"] = chs
-	c.Finger("mconn", pl.mode, pl.layered, pl.nodeInfo, pl.payload, len(pl.chans), len(pl.steps))
+	r.finger("mconn", pl.mode, pl.layered, pl.nodeInfo, pl.payload, len(pl.chans), len(pl.steps))
 
 	var link *SimLink
 	var ends [2]net.Conn
@@ -762,9 +762,9 @@ func (r *runState) scenarioMConn() {
 	// final verdict
 	msgs := 0
 	for s := 0; s < 2; s++ {
-		n, _ := d.flows[s].fingerprint(c)
+		n, _ := d.flows[s].fingerprint(r)
 		msgs += n
-		c.Finger("accepted", s, d.flows[s].nAcc)
+		r.finger("accepted", s, d.flows[s].nAcc)
 	}
 	r.sample["steps"] = len(pl.steps)
 	r.sample["accepted"] = [2]int{d.flows[0].nAcc, d.flows[1].nAcc}
